@@ -1,6 +1,7 @@
 import OutrankModel.Lemmas.MIReal
 import OutrankModel.Lemmas.MITable
 import OutrankModel.Lemmas.MISpec
+import OutrankModel.Lemmas.MIDistinct
 /-!
 # C01 – the plain estimator equals the plug-in Shannon mutual information
 Statements only; proofs by reference to `Lemmas/`.
@@ -40,6 +41,13 @@ theorem plugin_const_right (Y X : List Nat) (h : Y.length = X.length) (hn : 0 < 
 theorem plugin_const_left (Y X : List Nat) (h : Y.length = X.length) (hn : 0 < X.length)
     (hc : ∀ a ∈ Y, ∀ b ∈ Y, a = b) : miPlugin Y X = 0 := by
   exact miPlugin_const_left Y X h hn hc
+
+/-- closed form for an all-distinct vector (an identifier column): it determines the other vector, so the plug-in MI is the
+other vector's entropy (0 when that one is constant).  This is the reference value of the check's WIDE-STRATUM cases
+(10^5 classes in one stratum), where the executable model is not run. -/
+theorem plugin_alldistinct_left (Y X : List Nat) (h : Y.length = X.length) (hn : 0 < X.length) (hd : Y.Nodup) :
+    miPlugin Y X = entropy X := by
+  exact miPlugin_nodup_left Y X h hn hd
 
 /-- C01-6: at most the smaller of the two entropies. -/
 theorem plugin_le_entropy (Y X : List Nat) (h : Y.length = X.length) (hn : 0 < X.length) :
